@@ -100,7 +100,7 @@ fn any_str2<'a>(buf: &'a mut [u8; 2]) -> &'a str {
 //@ fn: vec::MetricVecCore::hash_label_values
 //@ obligation: two label-value tuples feed the same byte stream to the hasher only if they are equal position by position (whatever framing the code uses); with A1 (no FNV collision) equal child key <=> equal tuple
 #[kani::proof]
-#[kani::unwind(8)]
+#[kani::unwind(10)]
 #[kani::stub(<fnv::FnvHasher as std::hash::Hasher>::write, rec::rec_write)]
 #[kani::stub(<fnv::FnvHasher as std::hash::Hasher>::finish, rec::rec_finish)]
 #[kani::stub(alloc::fmt::format, stub_format)]
@@ -117,12 +117,10 @@ fn c05_hash_label_values_injective() {
     let r2 = v.hash_label_values(&[y0, y1]);
     assert!(r1.is_ok() && r2.is_ok(), "C05.hash_label_values: refused a tuple of the right cardinality");
     assert!(rec::streams() == 2, "C05.hash_label_values: not one hash stream per call");
-    let s1 = rec::snapshot(0);
-    let s2 = rec::snapshot(1);
-    if rec::streams_equal(&s1, &s2) {
+    if rec::streams_equal(0, 1) {
         assert!(x0 == y0 && x1 == y1, "C05: two different label-value tuples feed identical bytes to the hasher (they share one child)");
     }
-    kani::cover!(rec::streams_equal(&s1, &s2));
+    kani::cover!(rec::streams_equal(0, 1));
 }
 
 //@ id: c05_hash_label_values_frame
@@ -133,7 +131,7 @@ fn c05_hash_label_values_injective() {
 //@ expect: link
 //@ obligation: (link to the Verus lemma) the stream is frame(values) = each value followed by the separator byte 0xFF, in declared order; a different injective framing is not a violation (the check then reports 'undecided' and the lemma link must be re-established)
 #[kani::proof]
-#[kani::unwind(8)]
+#[kani::unwind(10)]
 #[kani::stub(<fnv::FnvHasher as std::hash::Hasher>::write, rec::rec_write)]
 #[kani::stub(<fnv::FnvHasher as std::hash::Hasher>::finish, rec::rec_finish)]
 #[kani::stub(alloc::fmt::format, stub_format)]
@@ -158,7 +156,7 @@ fn c05_hash_label_values_frame() {
 //@ fn: vec::MetricVecCore::hash_label_values, vec::MetricVecCore::get_metric_with_label_values, vec::MetricVecCore::delete_label_values
 //@ obligation: a positional request with the wrong number of label values returns Err(InconsistentCardinality{expect: 2, got}), hashes nothing, builds nothing and leaves the children map unchanged (same for remove_label_values); never panics
 #[kani::proof]
-#[kani::unwind(8)]
+#[kani::unwind(10)]
 #[kani::stub(<fnv::FnvHasher as std::hash::Hasher>::write, rec::rec_write)]
 #[kani::stub(<fnv::FnvHasher as std::hash::Hasher>::finish, rec::rec_finish)]
 #[kani::stub(alloc::fmt::format, stub_format)]
@@ -189,7 +187,7 @@ fn c05_positional_cardinality_errors() {
 //@ fn: vec::MetricVecCore::hash_labels, vec::MetricVecCore::get_metric_with, vec::MetricVecCore::delete
 //@ obligation: a map request with too few entries returns Err(InconsistentCardinality); one with the right size but a missing label name returns Err; neither builds nor inserts anything; remove() likewise
 #[kani::proof]
-#[kani::unwind(8)]
+#[kani::unwind(10)]
 #[kani::stub(<fnv::FnvHasher as std::hash::Hasher>::write, rec::rec_write)]
 #[kani::stub(<fnv::FnvHasher as std::hash::Hasher>::finish, rec::rec_finish)]
 #[kani::stub(alloc::fmt::format, stub_format)]
@@ -216,7 +214,7 @@ fn c05_map_form_errors() {
 //@ fn: vec::MetricVecCore::hash_labels, vec::MetricVecCore::get_label_values
 //@ obligation: the map form {a: v0, b: v1}, in either insertion order, feeds the hasher exactly the stream of the positional form [v0, v1] (same child), and get_label_values returns the values in declared-name order
 #[kani::proof]
-#[kani::unwind(8)]
+#[kani::unwind(10)]
 #[kani::stub(<fnv::FnvHasher as std::hash::Hasher>::write, rec::rec_write)]
 #[kani::stub(<fnv::FnvHasher as std::hash::Hasher>::finish, rec::rec_finish)]
 #[kani::stub(alloc::fmt::format, stub_format)]
@@ -239,9 +237,7 @@ fn c05_hash_labels_matches_positional() {
     let r1 = v.hash_label_values(&[x0, x1]);
     let r2 = v.hash_labels(&m);
     assert!(r1.is_ok() && r2.is_ok(), "C05.hash_labels: refused a complete label map");
-    let s1 = rec::snapshot(0);
-    let s2 = rec::snapshot(1);
-    assert!(rec::streams_equal(&s1, &s2), "C05: map form and positional form of the same label values address different children");
+    assert!(rec::streams_equal(0, 1), "C05: map form and positional form of the same label values address different children");
     let vals = v.get_label_values(&m);
     match vals {
         Ok(vs) => assert!(vs.len() == 2 && vs[0] == x0 && vs[1] == x1, "C05.get_label_values: values not in declared-name order"),
